@@ -126,6 +126,18 @@ def line_leg(sh):
     engine_line.run_profile(sh, 'C01', profile='general',
                             n_models=200 if sh.tier == 'quick' else 20000,
                             monitors=('queue',), prefix='line_')
+    # the same horizon simulated in many short slices (most of them with nothing due inside), on lines whose
+    # failures leave cancelled events in the queue: the clock never steps back over a slice it has already covered
+    from .. import core, modelgen
+    pol = ['prng', 'fifo', 'lifo', 'const']
+    for i in sh.share(48 if sh.tier == 'quick' else 4000):
+        seed = core.stable_int(sh.seed, 'C01', 'slices', i) % (1 << 40)
+        spec = modelgen.generate(seed, 'faults', tie=pol[i % 4])
+        total = min(sum(spec['horizon']), 30.0)
+        step = [0.125, 0.25, 0.375][i % 3]
+        spec['horizon'] = [step] * int(total / step)
+        spec.pop('between', None)
+        engine_line.run_spec(sh, 'C01', spec, ('queue',), prefix='slices_')
 
 
 def replay(sh, v):
